@@ -109,39 +109,55 @@ def unitUs (w : Char) : Int :=
   else if w = 'M' then 60 * usPerSecond
   else usPerSecond
 
-/-- The `while duration:` loop.  `fuel` bounds the number of iterations; every iteration consumes at
-    least a digit and a designator, so `fuel = length` is never exhausted (`parseDurationLoop_fuel`
-    in KskmProofs/Lemmas/C11Duration.lean); the out-of-fuel answer is therefore unreachable. -/
+/-- What one pass of the `while duration:` loop does: either the function is finished with a value,
+    or the loop goes round again with (`duration`, `time_section`, `res`). -/
+inductive DurStep where
+  | done (v : Int)
+  | more (rest : List Char) (timeSection : Bool) (acc : Int)
+  deriving DecidableEq, Repr, Inhabited
+
+/-- One pass of the loop body on a non-empty `duration`. -/
+def durationStep (s : List Char) (timeSection : Bool) (acc : Int) : Res DurStep :=
+  -- `if duration.startswith("T"): time_section = True; duration = duration[1:]`
+  let ts : Bool := if s.head? = some 'T' then true else timeSection
+  let s1 : List Char := if s.head? = some 'T' then s.tail else s
+  -- `^(\d+?)([WDHMS])(.*)`
+  let ds := s1.takeWhile Char.isDigit
+  let r1 := s1.dropWhile Char.isDigit
+  match r1 with
+  | [] => err .value                       -- nothing, or digits with no designator: no match
+  | w :: r2 =>
+    if !isDesignator w then
+      -- a non-ASCII character here may be a Unicode decimal digit continuing `\d+?`
+      if 128 ≤ w.toNat then unsupported else err .value
+    else if ds.isEmpty then err .value     -- a designator with no number
+    else if ds.length > maxStrDigits then err .value   -- `int(num_str)` refuses
+    else do
+      let rest := r2.takeWhile (· ≠ '\n')
+      let num : Int := (Nat.ofDigitChars 10 ds 0 : Nat)
+      if w = 'M' && !ts then err .notImplemented
+      let unit ← tdCheck (num * unitUs w)
+      let acc1 ← tdCheck (acc + unit)
+      match ← pyInt rest with
+      | some v =>
+        let tail ← tdCheck (v * usPerSecond)
+        let total ← tdCheck (acc1 + tail)
+        pure (.done total)                 -- `rest = ""`: the loop ends
+      | none => pure (.more rest ts acc1)
+
+/-- The `while duration:` loop.  `fuel` bounds the number of passes; every pass consumes at least a
+    digit and a designator (`durationStep_shrinks`), so `fuel = length` is never exhausted
+    (`parseDurationLoop_fuel`, both in KskmProofs/Lemmas/C11Duration.lean): the out-of-fuel answer
+    `err .runtime` is unreachable. -/
 def parseDurationLoop : Nat → List Char → Bool → Int → Res Int
   | 0, s, _, acc => if s.isEmpty then pure acc else err .runtime
   | fuel + 1, s, timeSection, acc =>
     if s.isEmpty then pure acc
     else
-      let (ts, s1) : Bool × List Char :=
-        match s with
-        | 'T' :: r => (true, r)
-        | _ => (timeSection, s)
-      let ds := s1.takeWhile Char.isDigit
-      let r1 := s1.dropWhile Char.isDigit
-      match r1 with
-      | [] => err .value                       -- nothing, or digits with no designator: no match
-      | w :: r2 =>
-        if !isDesignator w then
-          -- a non-ASCII character here may be a Unicode decimal digit continuing `\d+?`
-          if 128 ≤ w.toNat then unsupported else err .value
-        else if ds.isEmpty then err .value     -- a designator with no number
-        else if ds.length > maxStrDigits then err .value   -- `int(num_str)` refuses
-        else do
-          let rest := r2.takeWhile (· ≠ '\n')
-          let num : Int := (Nat.ofDigitChars 10 ds 0 : Nat)
-          if w = 'M' && !ts then err .notImplemented
-          let unit ← tdCheck (num * unitUs w)
-          let acc1 ← tdCheck (acc + unit)
-          match ← pyInt rest with
-          | some v =>
-            let tail ← tdCheck (v * usPerSecond)
-            tdCheck (acc1 + tail)
-          | none => parseDurationLoop fuel rest ts acc1
+      match durationStep s timeSection acc with
+      | .error e => .error e
+      | .ok (.done v) => pure v
+      | .ok (.more rest ts acc1) => parseDurationLoop fuel rest ts acc1
 
 /-- `duration_to_timedelta` on the characters of the text -/
 def parseDurationChars (s : List Char) : Res Int :=
